@@ -195,6 +195,16 @@ def campaign(ctx: Ctx, prop: str, profile: dict, n: int, corpus: list, required_
         outs = eb.run_many(scens, jobs=int(os.environ.get("VERIF_JOBS", "12")))
         for scen, out in zip(scens, outs):
             judged = eb.judge(m, scen, out)
+            # foreign bytes on a worker's socket (another job on this machine - a leaked worker still reconnecting - reached a port
+            # zmq has just handed out again): the run says nothing about the library; it is done once more, alone
+            for _ in range(2):
+                d0 = judged.get("diff") or {}
+                if "UnpicklingError" in str(d0.get("detail", "")) or "UnpicklingError" in str(d0.get("event", "")):
+                    ctx.count("rerun_after_foreign_bytes_on_socket")
+                    out = eb.run_many([scen], jobs=1)[0]
+                    judged = eb.judge(m, scen, out)
+                else:
+                    break
             for l in judged["info"].get("label_kinds", []):
                 label_cov[l] = label_cov.get(l, 0) + 1
             ex = scen["executor"]
